@@ -860,7 +860,7 @@ func (e *Engine) execPreparedStmts(ctx context.Context, tx *SQLTx, stmts []SQLSt
 			}
 		}
 
-		if currTx.Closed() {
+		if currTx.Closed() && currTx.committed {
 			committedTxs = append(committedTxs, currTx)
 		}
 
